@@ -203,7 +203,8 @@ harnesses! {
     w19_start_grow, unwind = 14, raw = 7, |r| check_indent_step(r, 0, true);
     w19_end_grow, unwind = 14, raw = 7, |r| check_indent_step(r, 1, true);
     w19_comment_grow, unwind = 14, raw = 7, |r| check_indent_step(r, 4, true);
-    w19_two_starts_grow, unwind = 14, raw = 7, |r| check_indent_two_starts(r);
+    w19_two_starts_c124, unwind = 14, raw = 7, |r| check_indent_two_starts(r, 124);
+    w19_two_starts_c128, unwind = 14, raw = 7, |r| check_indent_two_starts(r, 128);
     w8_start_n3, unwind = 6, raw = 4, |r| check_writer_table::<3>(r, 0);
     w8_end_n3, unwind = 6, raw = 4, |r| check_writer_table::<3>(r, 1);
     w8_empty_n3, unwind = 6, raw = 4, |r| check_writer_table::<3>(r, 2);
@@ -367,6 +368,9 @@ harnesses! {
     h2_bang_n3,  unwind = 6, raw = 5,  |r| check_helper::<3, 1, 0>(r, 3, C02, 33);
     h2_bang_n2,  unwind = 5, raw = 4,  |r| check_helper::<2, 1, 0>(r, 3, C02, 33);
     h18_bang_n2, unwind = 8, raw = 7,  |r| check_helper::<2, 1, 3>(r, 3, C02 | C18, 33);
+    h2_bangc_n4,  unwind = 7, raw = 6, |r| check_helper::<4, 1, 0>(r, 3, C02, 0xFE);
+    h18_bangc_n3, unwind = 8, raw = 7, |r| check_helper::<3, 1, 2>(r, 3, C02 | C18, 0xFE);
+    h18_bangd_n3, unwind = 8, raw = 7, |r| check_helper::<3, 1, 2>(r, 3, C02 | C18, 0xFD);
     h18_elem_n2, unwind = 8, raw = 7,  |r| check_helper::<2, 1, 3>(r, 1, C02 | C18, 0);
     h18_pi_n2,   unwind = 8, raw = 7,  |r| check_helper::<2, 1, 3>(r, 2, C02 | C18, 0);
     h18_text_n2, unwind = 8, raw = 7,  |r| check_helper::<2, 1, 3>(r, 0, C02 | C18, 0);
